@@ -26,6 +26,8 @@ var pool = []arg{
 	{"octets", "(coerce '(1 2 3) 'octets)"}, {"hash-table", "(make-hash-table)"}, {"package", "(find-package 'cl)"},
 	{"string-stream", "(make-string-input-stream \"a b\")"}, {"out-stream", "(make-string-output-stream)"},
 	{"time", "@2024-01-02T03:04:05Z"}, {"values", "(values 1 2)"}, {"no-values", "(values)"},
+	// non-ASCII characters and strings (added after seeded change C09-5 was missed)
+	{"char-latin1", "#\\é"}, {"char-greek", "#\\λ"}, {"char-arabic-digit", "(code-char 1635)"}, {"string-non-ascii", "\"héλ٣\""},
 	// designators and ragged structures (added after seeded changes C09-1 and C09-3 were missed)
 	{"pkg-symbol", "'keyword"}, {"pkg-keyword", ":keyword"}, {"pkg-string", "\"keyword\""}, {"ragged-alist", "'((a . 1) (b))"},
 	{"list-of-empty", "'(())"}, {"list-of-list1", "'((a))"}, {"plist", "'(:a 1 :b)"}, {"neg-big", "-4611686018427387905"},
@@ -176,6 +178,23 @@ func Run(ctx *common.Ctx) {
 		}
 		groups = append(groups, g)
 		keys = append(keys, ks)
+	}
+	// deep evaluation, with and without tracing (the trace hooks replace the catch-all hooks; added after seeded
+	// change C09-6 was missed): nested calls and recursion at depths around the hooks' indentation limits
+	for _, tr := range []bool{false, true} {
+		for _, depth := range []int{10, 39, 41, 45, 79, 81, 200} {
+			nested := strings.Repeat("(+ 1 ", depth) + "0" + strings.Repeat(")", depth)
+			rec := fmt.Sprintf("(defun c09-deep (n) (if (= n 0) 0 (+ 1 (c09-deep (- n 1))))) (c09-deep %d)", depth)
+			for _, body := range []string{nested, rec} {
+				src := body
+				if tr {
+					src = "(let ((*trace-output* (make-string-output-stream))) (trace t) (unwind-protect (progn " + body + ") (untrace)))"
+				}
+				groups = append(groups, []job{mk(src)})
+				keys = append(keys, []string{fmt.Sprintf("deep:%v/%d", tr, depth)})
+				ctx.Hist("deep-evaluation")
+			}
+		}
 	}
 	// format control strings
 	nfmt := 6000
@@ -396,7 +415,7 @@ func Run(ctx *common.Ctx) {
 	ctx.WriteShards("cases", header, "case", footer, terms, descs, 16)
 	ctx.Meta.Evaluations = total
 	ctx.Meta.DistinctNontrivial = total
-	ctx.Meta.Rule = fmt.Sprintf("every function of the packages cl, gi, bag, clos, flavors, generic, ... (%d swept, deny-list for those that exit, sleep, block on input or touch files/network) applied to the empty tuple, every 1-tuple of a %d-object pool, all %d 2-tuples and seeded 3..5-tuples, each function in a process of its own with a 4 s deadline and a memory limit; format control strings over the directive alphabet with prefix parameters (numbers, 'c, v, #), modifiers and 0..4 arguments; the reader on every byte string of length 1 and 2, every length-3 string over its syntax bytes, every length-4 string over 24 core syntax bytes and random strings. Outcome classes: value / Lisp condition / host fault (runtime error, interface conversion, unhashable key, non-Lisp panic) / hang / process death; every fault is re-run alone in a fresh process before it counts", len(fns), len(pool), len(pool)*len(pool))
+	ctx.Meta.Rule = fmt.Sprintf("every function of the packages cl, gi, bag, clos, flavors, generic, ... (%d swept, deny-list for those that exit, sleep, block on input or touch files/network) applied to the empty tuple, every 1-tuple of a %d-object pool, all %d 2-tuples and seeded 3..5-tuples, nested calls and recursion 10..200 deep with tracing off and on, each function in a process of its own with a 4 s deadline and a memory limit; format control strings over the directive alphabet with prefix parameters (numbers, 'c, v, #), modifiers and 0..4 arguments; the reader on every byte string of length 1 and 2, every length-3 string over its syntax bytes, every length-4 string over 24 core syntax bytes and random strings. Outcome classes: value / Lisp condition / host fault (runtime error, interface conversion, unhashable key, non-Lisp panic) / hang / process death; every fault is re-run alone in a fresh process before it counts", len(fns), len(pool), len(pool)*len(pool))
 }
 
 func outcomeKind(r result) string {
